@@ -306,10 +306,10 @@ prop(
     "C19",
     module="Aquatic.Props.C19",
     technique="Lean 4 proof about the supervising loop of run(), whose shape (spawn sites, handles pushed, poll period, join arms) is regenerated from the three lib.rs files on every run + fault injection into the real trackers (hook: a chosen worker panics / returns at its next loop iteration; a socket worker that cannot bind)",
-    runs=[dict(harness="supervise", driver="supervise", quick=dict(cases=24), thorough=dict(cases=96))],
-    nontrivial=["mode-panic", "mode-return", "mode-bind"],
-    level_text="Theorems over the regenerated shape of the three run() functions: every worker thread spawned in run() is pushed to the supervised handles (spawn sites = pushes, prometheus endpoint included); each of the three arms of the join (returned Ok, returned Err, panicked) returns an error; a pass over the handles finds nothing iff every worker is running, otherwise it yields an error naming a stopped worker, never Ok; the pass following a stop at any time t comes before t + poll period, hence run() returns within 5 s, well within 10 s. Tie: tracker child processes (UDP, HTTP, WebTorrent; 1-2 socket and swarm workers) in which the socket, swarm, swarm-cleaning-timer, cleaning, statistics or signal worker is made to panic or to return at its next loop iteration 0.8 s after start, or whose socket worker cannot bind: the parent measures when run() returns and with what.",
-    level_note="partial: that a dead worker thread is what the handle reports - glommio propagating task panics to the executor thread, a swarm worker's dead request handler taking the socket worker down through the broken channel - is exercised by the fault injection, not proved. 25 fault kinds; the WebTorrent swarm worker has no loop to return from (panic only).",
+    runs=[dict(harness="supervise", driver="supervise", quick=dict(cases=28), thorough=dict(cases=112))],
+    nontrivial=["mode-panic", "mode-return", "mode-bind", "mode-bind4", "mode-bind6"],
+    level_text="Theorems over the regenerated shape of the three run() functions: every worker thread spawned in run() is pushed to the supervised handles (spawn sites = pushes, prometheus endpoint included); each of the three arms of the join (returned Ok, returned Err, panicked) returns an error; a pass over the handles finds nothing iff every worker is running, otherwise it yields an error naming a stopped worker, never Ok; the pass following a stop at any time t comes before t + poll period, hence run() returns within 5 s, well within 10 s. Tie: tracker child processes (UDP, HTTP, WebTorrent; 1-2 socket and swarm workers) in which the socket, swarm, swarm-cleaning-timer, cleaning, statistics or signal worker is made to panic or to return at its next loop iteration 0.8 s after start, or whose socket worker cannot bind (IPv4-only configuration, and dual-stack configurations in which only the IPv4 or only the IPv6 address is taken): the parent measures when run() returns and with what.",
+    level_note="partial: that a dead worker thread is what the handle reports - glommio propagating task panics to the executor thread, a swarm worker's dead request handler taking the socket worker down through the broken channel - is exercised by the fault injection, not proved. 29 fault kinds; the WebTorrent swarm worker has no loop to return from (panic only).",
     design_ref="§8 C19",
     assumptions=["a worker reaches its next loop iteration within about a second (1 s cleaning / statistics intervals in the runs; sockets are poked by the harness)"],
 )
